@@ -26,15 +26,18 @@ from ..mutate import EXTRA_BASES
 from ..tlaval import parse, read_dump
 
 PROP = "C06"
-BOUNDS = {"quick": dict(files=4, MaxLen=4, MaxRepeat=2, seeds=[0, 1, 4242], orders=3), "thorough": dict(files=5, MaxLen=5, MaxRepeat=2, seeds=list(range(16)), orders=8)}
+BOUNDS = {"quick": dict(files=6, MaxLen=4, MaxRepeat=2, seeds=[0, 1, 4242], orders=3), "thorough": dict(files=7, MaxLen=4, MaxRepeat=2, seeds=list(range(16)), orders=8)}
 
 POOL = {
     "f1": ("Python", EXTRA_BASES["Python"][1]),
     "f2": ("JavaScript", "function outer(a) {\n  function inner(b) {\n    return b;\n  }\n  return inner(a);\n}\nconst g = (cb = () => 0) => {\n  return cb();\n};\n"),
-    "f3": ("Python", "def f(a):\n    return a\n\ndef g("),
-    "f4": ("Java", EXTRA_BASES["Java"][0]),
-    "f5": ("TypeScript", "function f<T>(a: T): T {\n  return a;\n}\nconst h = async (x = (y) => y) => {\n};\nclass K { m(a: number): void { } }\n"),
-    "f6": ("C", "int f(int a) {\n  return g(a)(1\n"),
+    # more openers than closers (matching stops midway, a parenthesis group and a block stay open) ...
+    "f3": ("C", "#ifdef A\nint f(int a) {\n#else\nint f(long a) {\n#endif\n  return g(a)(1\n"),
+    # ... and, later in the same process, more closers than openers: nothing left open by one file may pair with them
+    "f4": ("C++", "int twice(int a) {\n  return 2 * a;\n}\n#ifdef __cplusplus\n}\n#endif\nint thrice(int a) {\n  return 3 * a;\n}\n)\n"),
+    "f5": ("Python", "def f(a):\n    return a\n\ndef g("),
+    "f6": ("Java", EXTRA_BASES["Java"][0]),
+    "f7": ("TypeScript", "function f<T>(a: T): T {\n  return a;\n}\nconst h = async (x = (y) => y) => {\n};\nclass K { m(a: number): void { } }\n"),
 }
 
 
@@ -55,7 +58,7 @@ def run(tier: str) -> int:
         for k, (lang, text) in enumerate(POOL.values()):
             d = gen / f"d{k % 3}" / f"s{k % 2}"
             d.mkdir(parents=True, exist_ok=True)
-            ext = {"Python": "py", "JavaScript": "js", "Java": "java", "TypeScript": "ts", "C": "c"}[lang]
+            ext = {"Python": "py", "JavaScript": "js", "Java": "java", "TypeScript": "ts", "C": "c", "C++": "cpp"}[lang]
             (d / f"m{k}.{ext}").write_text(text)
         # byte-identical files of different languages, empty files: a file's result must not depend on neighbours
         twin = "int shape(int a) {\n  if (a) {\n    return a;\n  }\n  return 0;\n}\n"
